@@ -631,9 +631,9 @@ func verifSpecCL(lowered string) primitive.ConsistencyLevel {
 // registerForEvents: the client becomes a delivery target of schema events ($registered is the
 // abstract view of membership in Proxy.eventClients).
 //@ func proxy.Proxy.registerForEvents [C14]
-//@   trusted
 //@   requires p != nil && cl != nil
-//@   ensures cl.$registered
+//@   after sync.Map.Store#* set cl.$registered = cl.$registered || (arg0 == &p.eventClients && typeis(arg1, *client) && as(arg1, *client) == cl)
+//@   ensures becomes-a-target: cl.$registered
 //@   modifies p.eventClients, cl.$registered
 
 //@ loop proxy.client.Receive #1
@@ -864,7 +864,8 @@ func verifSpecCL(lowered string) primitive.ConsistencyLevel {
 // removeClient: the client stops being a delivery target and leaves the client table.
 //@ func proxy.Proxy.removeClient [C14, C18]
 //@   requires p != nil && cl != nil && p.mu != nil && p.clients != nil
-//@   defines !cl.$registered
+//@   after sync.Map.Delete#* set cl.$registered = cl.$registered && !(arg0 == &p.eventClients && typeis(arg1, *client) && as(arg1, *client) == cl)
+//@   ensures stops-being-a-target: !cl.$registered
 //@   modifies p.eventClients, p.clients[*], cl.$registered
 
 // OnEvent: only schema-change events are fanned out (one Range over the registered clients, with a
